@@ -408,6 +408,7 @@ struct Harness
                 Model w(m.rbegin(), m.rbegin() + (num - want));
                 if (dtor_log != w) { ck.fail("setn-dtor", "setn did not destroy exactly the dropped elements, last first"); return; }
             }
+            if (o.b && want >= num && !dtor_log.empty()) { ck.fail("setn-dtor", "a growing setn called the destructor"); return; }
             if (c->num_ != want) { ck.fail("length", "setn(" + std::to_string(o.a) + ") left " + std::to_string(c->num_) + " elements"); return; }
             if (c->num_ > c->mem_) { ck.fail("count-exceeds-capacity", "num > mem after setn"); return; }
             while (m.size() > want) { m.pop_back(); }
@@ -689,7 +690,10 @@ struct Harness
         }
         for (size_t k = 0; k <= num; ++k) { add(OP_SETN, (long)k, 1); }
         if (num) { add(OP_SETN, (long)num - 1, 0); }
-        if (grow) { add(OP_SETN, (long)num + 1, 0); }
+        if (grow) { add(OP_SETN, (long)num + 1, 0); add(OP_SETN, (long)num + 1, 1); } // growing with a destructor supplied: nothing to destroy, same result
+#if !defined(SEQ_VEC)
+        if (mem <= (size_t)N) { add(OP_SETN, (long)mem + 2, 1); } // beyond the capacity of the fixed buffer: clamps (offered while the capacity is within the element bound)
+#endif
 #if defined(SEQ_VEC)
         add(OP_SETM, 0); add(OP_SETM, (long)num);
         if (mem < memcap) { add(OP_SETM, (long)mem + 1); }
